@@ -675,10 +675,16 @@ func runC11Checks(run *runner, lim *sigLimiter, idx int64, cc *c11Case, shrunk m
 		if strict {
 			mode = "strict"
 		}
-		env, err := newEnv(run.t, EnvOpts{OPL: cc.Text, Strict: strict, MaxDepth: 5, MaxWidth: 1000})
+		// every fifth case is delivered through an http:// location (same host and
+		// path for all documents of the process, the document chosen by the query)
+		viaHTTP := idx%5 == 3
+		env, err := newEnv(run.t, EnvOpts{OPL: cc.Text, Strict: strict, MaxDepth: 5, MaxWidth: 1000, OPLViaHTTP: viaHTTP})
 		if err != nil {
 			run.inconclusive(fmt.Sprintf("C11 idx %d (%s): env: %v", idx, mode, err))
 			continue
+		}
+		if viaHTTP {
+			run.count("documents_loaded_from_an_http_location", 1)
 		}
 		if err := env.Write(cc.tuples...); err != nil {
 			run.inconclusive(fmt.Sprintf("C11 idx %d (%s): write: %v", idx, mode, err))
